@@ -196,12 +196,13 @@ func init() {
 			for m := 0; m < 4; m++ {
 				rs = append(rs, HRun{Pkg: "./dig", Fn: "ZZ_C11_Insert", Params: []int{m}})
 			}
+			rs = append(rs, HRun{Pkg: "./dig", Fn: "ZZ_C11_NegInt"})
 			return rs
 		},
 		Assumptions: []string{
 			"event layouts: 3 inputs, every combination of indexed/selected (64 layouts, case-split) and leaf types from {uint256,address,bool,bytes32,int256,uint8}; topics, log data and every block/tx/log field are solver-quantified",
 			"array inputs (ZZ_C11_Array): T[] with 1-2 (thorough 3) elements and T[2] (thorough T[1..3]) for T in {address,uint256,int256,uint8,bytes32,uint64}, alone or followed by a selected address input; data is the reference ABI encoding (harness/dig/c09.go) of symbolic elements; arrays of bool/string/bytes are NOT asserted: dbtype matches those three names exactly, so their array elements are stored as the raw 32-byte word / bytes (an observation, not claimed either way)",
-			"decimal rendering (uint256.Dec / negInt.Value) is outside: integer cells are compared as 256-bit limbs before rendering",
+			"the unsigned decimal conversion (holiman uint256.Dec) is outside: integer cells are compared as 256-bit limbs, and in ZZ_C11_NegInt Dec is an uninterpreted function of the 256-bit value; the repo's own signed rendering (negInt.Value: minus sign iff the top bit is set, then the decimal of the two's-complement magnitude, computed here limb by limb) is decided for every 256-bit value",
 			"Integration.Insert is run over blocks with two transactions / two trace actions / two logs / three logs of the event interleaved with logs of other events (same signature hash with another topic count, another hash) and the rows are read when COPY drains them (values held by reference are observed when stored)",
 			"the path JSON -> client is covered by C07/C14, COPY -> stored value (pgx binary encoding, Postgres) is outside",
 		},
@@ -511,6 +512,9 @@ func init() {
 			}
 			// the no-row-beyond-position clause at every commit of reorg histories
 			rs = append(rs, HRun{Pkg: "./shovel", Fn: "ZZ_C03_Reorg", Params: []int{2, 1, 2, 2}}, HRun{Pkg: "./shovel", Fn: "ZZ_C03_Reorg", Params: []int{3, 1, 2, 3}})
+			// pruning old positions never moves a pair's position away from its rows
+			rs = append(rs, HRun{Pkg: "./shovel", Fn: "ZZ_C04_Prune", Params: []int{2, 2, 1, 1}, Label: "position-survives-pruning"},
+				HRun{Pkg: "./shovel", Fn: "ZZ_C04_Prune", Params: []int{2, 1, 2, 2}, Label: "position-survives-pruning"})
 			return rs
 		},
 		Assumptions: append([]string{
@@ -532,6 +536,14 @@ func init() {
 			for _, l := range []int{3, 13, 45, 29} {
 				rs = append(rs, HRun{Pkg: "./dig", Fn: "ZZ_C11_Log", Params: []int{l, 0, popIdx(l) + 1, 1}})
 			}
+			// periodic pruning of recorded positions (PruneTask): per pair, nothing else
+			pcs := [][]int{{2, 2, 1, 1}, {2, 1, 2, 2}, {1, 2, 2, 1}, {3, 1, 1, 2}}
+			if tier == "thorough" {
+				pcs = append(pcs, []int{3, 2, 1, 1}, []int{2, 3, 2, 2}, []int{3, 3, 0, 2}, []int{1, 1, 3, 3})
+			}
+			for _, pc := range pcs {
+				rs = append(rs, HRun{Pkg: "./shovel", Fn: "ZZ_C04_Prune", Params: pc, Label: "pruning-keeps-every-pair's-own-newest-positions"})
+			}
 			// two tasks with different log filters attaching logs to one shared cached block
 			for _, n := range []int{2, 3} {
 				rs = append(rs, HRun{Pkg: "./jrpc2", Fn: "ZZ_C08_Seq", Params: []int{0, n, 2, 0}, MaxPaths: 200000, Label: "shared-cached-block"})
@@ -540,10 +552,11 @@ func init() {
 		},
 		Assumptions: append([]string{
 			"frame condition per statement: three foreign pairs (same source/other integration, other source/same integration with the shared table, same source/other integration sharing the table) with arbitrary cursor rows are present while the task unwinds a reorg and inserts; they must be unchanged afterwards. Interleavings follow from the frame condition: statements that read and write only rows of their own pair commute",
+			"pruning (ZZ_C04_Prune): the real PruneTask against the Postgres model, which reads the statement's outer tuple, partition columns, order direction and rn bound from its text; three pairs (same source / same integration name / neither) with 0-3 recorded positions each at arbitrary numbers and n in 1..3: every pair keeps exactly its own newest min(k,n) positions, its position and table rows are unchanged",
 			"row stamping (ig_name/src_name of every emitted row equal the task's names) is decided on the real row builder (ZZ_C11_Log)",
 			"shared cached block: every order of 2-3 requests by two callers whose filters match different logs of one transaction on the same cached range; each caller must find its own log exactly once (ZZ_C08_Seq kind 0)",
 		}, convAssume...),
-		Bounds:  map[string]string{"quick": "3 reorg/insert scenarios x 3 foreign pairs; 4 event layouts for the stamp", "thorough": "same"},
+		Bounds:  map[string]string{"quick": "3 reorg/insert scenarios x 3 foreign pairs; 4 event layouts for the stamp; 4 pruning configurations", "thorough": "8 pruning configurations"},
 		Outside: []string{"Postgres row-level isolation itself", "restarts (loadTasks context derivation) - see C20"},
 	})
 	register(&PropSpec{
